@@ -77,6 +77,11 @@ class Report:
             known_findings_reproduced=sorted(self.known_hit),
         )
         cov.update(self.extra)
+        vk = {}
+        for key, what, _ in self.violations:
+            vk.setdefault(key, [0, what[:300]])[0] += 1
+        if vk:
+            cov['violation_keys'] = dict(sorted(vk.items(), key=lambda kv: -kv[1][0])[:200])
         ev = dict(property_id=self.pid, tier=self.tier, seed=seed(), level=self.level, coverage=cov,
                   assumptions=self.assumptions, wall_s=self.timer.s(), violations=len(self.violations))
         with open(os.path.join(EVIDENCE, self.pid + '.json'), 'w') as f:
